@@ -70,9 +70,9 @@ def run(ctx):
     T = ctx.thorough
     dev = os.environ.get("VERIF_DEV_SKIP_MC") == "1"      # development aid only (mutant loops): skips the model runs
     if not dev:
-        ctx.tlc_mc("MC_Shapes", "MC_Shapes_big.cfg" if T else "MC_Shapes.cfg", coverage=T)
-        for m in MUTANT_CFGS if T else MUTANT_CFGS[:4]:
-            ctx.tlc_mc("MC_Shapes", "MC_Shapes_%s.cfg" % m, expect_violation=True)
+        ctx.tlc_mc("MC_Shapes", "MC_Shapes_big.cfg" if T else "MC_Shapes.cfg", coverage=T, workers=8 if T else 4)
+        for m in MUTANT_CFGS if T else ("mutD2", "mutD1", "mutFeedIdx"):
+            ctx.tlc_mc("MC_Shapes", "MC_Shapes_%s.cfg" % m, expect_violation=True, workers=2)
     # every shape is an initial state of the model: TLC enumerates all of them with the class it computed
     shapes = ctx.tlc_gen("MC_Shapes", "Gen_Shapes.cfg", bfs=True)
     if not T and shapes:
